@@ -4,13 +4,14 @@ import "verif/sim/tape"
 
 // GenOpts restricts generation.
 type GenOpts struct {
-	Formats     []string
-	NoJS        bool
-	Encodings   bool
-	MinRecs     int
-	MaxRecs     int
-	Family      string // special scenario family ("" = general)
-	OwnDataOnly bool   // the schema addresses only the target record's own data
+	Formats          []string
+	NoJS             bool
+	Encodings        bool
+	MinRecs          int
+	MaxRecs          int
+	Family           string // special scenario family ("" = general)
+	NoSiblingContext bool   // no non-target elements between records (they are legitimately retained)
+	OwnDataOnly      bool   // the schema addresses only the target record's own data
 }
 
 // Generator produces a world from the tape.
